@@ -5,12 +5,14 @@ CONSTANTS
   Shapes <- ShapesDeps
   Limits = {0}
   DefIds = {1, 2, 3}
-  OmitVals = {FALSE}
-  Modes = {"fresh", "lctx", "gen"}
+  OmitVals = {FALSE, TRUE}
+  Modes = {"fresh", "lctx", "gen", "proc"}
   ResetLimiter = TRUE
-  IdentityDepKey = FALSE
+  IdentityDepKey = TRUE
   VolatileUniq = TRUE
   FreshModule = TRUE
 VIEW View
-INVARIANT EmitBad
+INVARIANT SibDigest
+INVARIANT LimitRespected
+INVARIANT OwnLineKept
 CHECK_DEADLOCK FALSE
